@@ -12,7 +12,8 @@
 From Coq Require Import Floats.
 From SC.Model Require Import Base Num Types Config Case Post Parser Items Interp NumF64.
 From SC.Spec Require Import Expr.
-From SC.Proofs Require Import C02_Parser C02_Examples.
+From SC.Model Require Import Chrono UiTokens Rx RuleFns Rules Format Lexer Api Run64.
+From SC.Proofs Require Import C02_Parser C02_Examples RegexNeeds.
 
 Section WithNum.
 Context {F : Type} {NF : Num F}.
@@ -131,6 +132,33 @@ Proof.
   exact (conj H1 (conj H3 (conj H4 (conj H5 (conj H6 (conj H7 (conj H8 H9))))))).
 Qed.
 
+(* ---- the lexical step, as far as it is proved (Proofs/RegexNeeds.v) ----
+   On EVERY line over the arithmetic alphabet (digits + - * / ( ) blank . ,) the parsers comment,
+   field, money, atom, percent, timezone, time and text add no token (a sound syntactic analysis of
+   the regenerated regexes: each needs a character outside the alphabet), so only the number,
+   whitespace and operator parsers contribute ... *)
+Theorem C02_arith_line_regex_tokinizer : forall (F : Type) (NF : Num F) (today : Z) (cfg : config F) (lang line : str) (st : Rules.tstate),
+  arith_line line ->
+  regex_tokinizer LX today cfg lang line st =
+  (do st' <- run_keys LX today cfg lang line [s "number"; s "whitespace"; s "operator"] st; Ok (cleanup st')).
+Proof. exact @arith_line_regex_tokinizer. Qed.
+
+(* ... and for all non-empty digit strings d1 d2, any number of blanks around the operator (at
+   least one behind a + or -, otherwise the sign joins the literal) the lexer yields exactly
+   [number d1; operator; number d2] with the exact positions *)
+Theorem C02_shape_token_infos : forall (F : Type) (NF : Num F) (today : Z) (cfg : config F) (lang : str) (d1 d2 : list N)
+    (k1 k2 : nat) (op : N) (x1 x2 : F),
+  d1 <> [] -> d2 <> [] -> forallb digit d1 = true -> forallb digit d2 = true -> shape_ok op k2 ->
+  read_decimal cfg d1 = Some x1 -> read_decimal cfg d2 = Some x2 ->
+  token_infos LX today cfg lang (shape_line d1 k1 op k2 d2) =
+  Ok [mk_tok 0 (N.of_nat (length d1)) (TNumber x1 Decimal) d1;
+      mk_tok (N.of_nat (length d1) + N.of_nat k1) (N.of_nat (length d1) + N.of_nat k1 + 1) (TOperator op) [op];
+      mk_tok (N.of_nat (length d1) + N.of_nat k1 + 1 + N.of_nat k2)
+             (N.of_nat (length d1) + N.of_nat k1 + 1 + N.of_nat k2 + N.of_nat (length d2)) (TNumber x2 Decimal) d2].
+Proof. exact @shape_token_infos. Qed.
+
+Print Assumptions C02_arith_line_regex_tokinizer.
+Print Assumptions C02_shape_token_infos.
 Print Assumptions C02_token_level.
 Print Assumptions C02_parenthesise_wf.
 Print Assumptions C02_parenthesise_denote.
